@@ -492,29 +492,52 @@ Scheme Boolean Equality for dstate.
 
 Definition mem_state (s : dstate) (l : list dstate) : bool := existsb (dstate_beq s) l.
 
-Fixpoint add_new (cands visited acc : list dstate) : list dstate :=
+(* visited states are kept in buckets under a cheap key, so that membership compares few states *)
+Definition pc_tag (p : lpc) : nat :=
+  match p with PIdle => 0 | PHaltInit _ _ => 1 | PHaltDone _ _ => 2 | PExited => 3 end.
+Definition state_key (s : dstate) : nat :=
+  length (inp s) + 8 * (pc_tag (pc s) + 4 * (length (ponder s) + 6 * length (emitted s))).
+
+Definition buckets := list (nat * list dstate).
+
+Fixpoint bucket_mem (k : nat) (s : dstate) (b : buckets) : bool :=
+  match b with
+  | [] => false
+  | (k', l) :: r => if k =? k' then mem_state s l else bucket_mem k s r
+  end.
+
+Fixpoint bucket_add (k : nat) (s : dstate) (b : buckets) : buckets :=
+  match b with
+  | [] => [(k, [s])]
+  | (k', l) :: r => if k =? k' then (k', s :: l) :: r else (k', l) :: bucket_add k s r
+  end.
+
+(* add the candidates not yet visited: returns (new frontier, visited) *)
+Fixpoint add_new (cands : list dstate) (fresh : list dstate) (visited : buckets) : list dstate * buckets :=
   match cands with
-  | [] => acc
-  | c :: r => if mem_state c visited || mem_state c acc then add_new r visited acc
-              else add_new r visited (c :: acc)
+  | [] => (fresh, visited)
+  | c :: r =>
+    let k := state_key c in
+    if bucket_mem k c visited then add_new r fresh visited
+    else add_new r (c :: fresh) (bucket_add k c visited)
   end.
 
 (** Breadth-first closure: [Some all_states] if the frontier empties within [fuel] rounds. *)
-Fixpoint explore_with (succ : dstate -> list dstate) (fuel : nat) (frontier visited : list dstate)
+Fixpoint explore_with (succ : dstate -> list dstate) (fuel : nat) (frontier : list dstate) (visited : buckets)
   : option (list dstate) :=
   match frontier with
-  | [] => Some visited
+  | [] => Some (flat_map snd visited)
   | _ =>
     match fuel with
     | O => None
     | S f =>
-      let fresh := add_new (flat_map succ frontier) visited [] in
-      explore_with succ f fresh (fresh ++ visited)
+      let (fresh, visited') := add_new (flat_map succ frontier) [] visited in
+      explore_with succ f fresh visited'
     end
   end.
 
 Definition explore (cap maxd fuel : nat) (script : list cmd) : option (list dstate) :=
-  let s0 := init_state script in explore_with (steps cap maxd) fuel [s0] [s0].
+  let s0 := init_state script in explore_with (steps cap maxd) fuel [s0] [(state_key s0, [s0])].
 
 (** ** Observations and the trace checker
 
